@@ -126,6 +126,12 @@ def run(ctx):
             elif t == 12:
                 rows.append([("mo", "("), ("mi", "b"), ("mo", "+"), ("mi", "c"), ("mo", k), ("mi", "d")])
     n_echo = len(rows)
+    # exhaustive: every row up to length 3 (thorough: 5) over a 13-symbol alphabet with every kind of operator and fence
+    import itertools
+    ALPHA = [("mi", "a"), ("mn", "2"), ("mo", "+"), ("mo", "-"), ("mo", "("), ("mo", ")"), ("mo", "!"), ("mo", "="), ("mo", "×"), ("mo", "¬"), ("mo", "["), ("mo", "}"), ("mo", "∑")]
+    for L in range(1, 4 if ctx.tier == "quick" else 6):
+        rows += [list(seq) for seq in itertools.product(ALPHA, repeat=L)]
+    n_exhaustive = len(rows) - n_echo
     for _ in range(n):
         rows.append(gen_row(rng, opsets, rng.randrange(1, 14 if rng.random() < 0.8 else 40)))
     pre = core.prelude([{"op": "set_pref", "name": "Chemistry", "value": "Off"}])
@@ -177,11 +183,12 @@ def run(ctx):
         "rule": "table echo (every sampled dictionary entry and form between two reference operators) + generated rows of length 1-40 over all dictionary operators outside the guard list "
                 "(prefix/postfix positions, operator runs, implied multiplication, nested and unbalanced fences); tree shape compared with the model; Spec checker on every output. "
                 "non-trivial = >= 2 different operators or a fence",
-        "rows_inside_model_guard": n_in_guard, "table_echo_rows": n_echo, "operators_in_play": len(single), "operators_dropped_by_behavioural_guard": guard_dropped, "dictionary_entries": len(entries),
+        "rows_inside_model_guard": n_in_guard, "table_echo_rows": n_echo, "exhaustive_rows_up_to_length": (3 if ctx.tier == "quick" else 5), "exhaustive_rows": n_exhaustive,
+        "model_panic_outcomes": sum(1 for rm in rep_m if rm.get("r") == "panic"), "operators_in_play": len(single), "operators_dropped_by_behavioural_guard": guard_dropped, "dictionary_entries": len(entries),
         "model_vs_impl_disagreements": [{k: v for k, v in d.items() if k != "lines"} for d in disagreements[:8]], "n_disagreements": len(disagreements),
         "impl_vs_oracle_failures": [{k: v for k, v in f.items() if k != "lines"} for f in oracle_fail[:8]], "n_oracle_failures": len(oracle_fail),
         "panics_seen_reported_under_C08": [{"row": p["row"], "reply": p["reply"]} for p in panics[:5]],
-        "samples": [rows[n_echo], rows[n_echo + 1], rows[0]],
+        "samples": [rows[-1], rows[-2], rows[0]],
     })
     for f in oracle_fail:
         ctx.violation("implementation violates C03: " + json.dumps({k: v for k, v in f.items() if k != "lines"}, ensure_ascii=False)[:400],
